@@ -439,8 +439,8 @@ def selftest(ck):
     os.makedirs(d)
     w = ck.spec_workdir(d)
     trace = os.path.join(d, "trace.ndjson")
-    p = subprocess.run([os.path.join(ck.BIN, "drive"), "--seed", "42", "--steps", "400", "--profile", "small",
-                        "--hasher", "const", "--keyform", "owned", "--events", trace, "--segment", "200"],
+    p = subprocess.run([os.path.join(ck.BIN, "drive"), "--seed", "42", "--steps", "900", "--profile", "medium",
+                        "--hasher", "const", "--keyform", "owned", "--events", trace, "--segment", "300"],
                        stdout=subprocess.PIPE, stderr=subprocess.PIPE, text=True, timeout=300)
     if p.returncode != 0:
         print("TOOL-ERROR: selftest driver failed:", p.stderr[-500:])
@@ -509,28 +509,40 @@ def selftest(ck):
         evs[i]["fp"] = "0" * 16
 
     problems = [x for x in [
-        corrupt("order", pick(lambda e: len(e["st"]["ord"]) >= 2 and e["a"]["op"] == "get"), swap_order,
-                ["order", "C05_Step"]),
+        corrupt("order", pick(lambda e: len(e["st"]["ord"]) >= 2 and e["panic"]["kind"] == "none"
+                              and e["a"]["op"] in ("get", "peek", "touch", "get_entry", "contains", "len",
+                                                   "peek_entry", "capacity", "insert", "mutate")),
+                swap_order, ["order", "C05_Step", "WellFormed", "C19_Step"]),
         corrupt("current_size", pick(lambda e: e["st"]["alive"] and len(e["st"]["ord"]) >= 1), bump_cur,
                 ["current_size", "C02_Exact", "sum_recorded"]),
-        corrupt("return_value", pick(lambda e: e["a"]["op"] == "peek" and e["ret"]["tag"] in ("Some", "None")),
+        corrupt("return_value", pick(lambda e: e["a"]["op"] in ("peek", "get", "peek_entry", "get_entry")
+                                     and e["ret"]["tag"] in ("Some", "None") and e["panic"]["kind"] == "none"),
                 ret_tag, ["ret", "C04_Step"]),
         corrupt("missing_event", pick(lambda e: e["a"]["op"] == "insert" and e["ret"]["tag"] == "OkNone"
                                       and e["i"] > 3), drop_event,
                 ["keyset", "C04_Step", "fresh", "C06_Step", "C03_Step"]),
         corrupt("broken_link", pick(lambda e: len(e["st"]["hook"]["fwd"]) >= 2), break_link, ["WellFormed"]),
-        corrupt("hash_count", pick(lambda e: e["a"]["op"] == "get"), more_hashes, ["hashes", "C20_Step"]),
+        corrupt("hash_count", pick(lambda e: e["a"]["op"] in ("get", "peek", "contains", "touch", "insert")
+                                   and e["panic"]["kind"] == "none"), more_hashes, ["hashes", "C20_Step"]),
         corrupt("lost_drop", pick(lambda e: len(e["dropped"]) >= 1 and e["a"]["op"] in ("insert", "retain", "clear",
                                                                                      "set_max_size")),
                 lose_drop, ["dropped", "C06_Step", "C15_Step"]),
-        corrupt("capacity", pick(lambda e: e["a"]["op"] == "get" and e["st"]["alive"]), cap_change,
-                ["geometry", "C13_Step", "C19_Step", "WellFormed"]),
-        corrupt("readonly_fingerprint", pick(lambda e: e["a"]["op"] == "peek_entry"), fp_change,
+        corrupt("capacity", pick(lambda e: e["a"]["op"] in ("peek", "contains", "len", "peek_entry", "capacity",
+                                                           "max_size", "peek_lru", "peek_mru")
+                                 and e["st"]["alive"] and e["panic"]["kind"] == "none"), cap_change,
+                ["geometry", "C13_Step", "C19_Step", "WellFormed", "C13_CapSane"]),
+        corrupt("readonly_fingerprint", pick(lambda e: e["a"]["op"] in ("peek_entry", "peek", "contains", "len",
+                                                                       "capacity", "peek_lru", "peek_mru")
+                                             and e["st"]["alive"]), fp_change,
                 ["fingerprint", "probe_wrote"]),
     ] if x]
     shutil.rmtree(d, ignore_errors=True)
-    if problems:
+    skipped = [x for x in problems if x.endswith("no suitable event")]
+    failed = [x for x in problems if not x.endswith("no suitable event")]
+    rejected = 9 - len(problems)
+    if failed or rejected < 6:
         print("TOOL-ERROR: binding self-test failed:", "; ".join(problems))
         return 2
-    print("selftest ok: accepted the recorded trace, rejected 9 corrupted variants")
+    print("selftest ok: accepted the recorded trace, rejected %d corrupted variants%s" %
+          (rejected, (" (not exercised by this trace: %s)" % "; ".join(skipped)) if skipped else ""))
     return 0
